@@ -2138,7 +2138,7 @@ def tailFile(filename, offset, length):
                 data = f.read(length)
 
             offset = sz
-            return [as_string(data), offset, overflow]
+            return [data.decode('utf-8', 'replace'), offset, overflow]
     except (OSError, IOError):
         return ['', offset, False]
 
